@@ -57,6 +57,8 @@ def cases_for(ctx):
     for ded, rc in ((False, 5), (True, 5), (True, 1)):
         cases.append({'behaviours': ['equal', 'different', 'error_result', 'different', 'equal', 'error_result', 'different'], 'dedicated': ded, 'recycle': rc, 'keep': True,
                       'shared_results': True, 'pair': 'S'})
+    # a replay leaves a non-daemon timer behind that outlasts the timeout: recycling that worker is slow, the NEXT recording is still healthy
+    cases.append({'behaviours': ['equal', 'leaves_timer', 'equal', 'different', 'leaves_timer', 'equal', 'equal'], 'dedicated': True, 'recycle': 2, 'keep': False})
     # an equalizer built without a configuration next to another such equalizer whose settings were changed after construction
     cases.append({'behaviours': ['equal', 'different', 'player_raises', 'equal'], 'dedicated': False, 'recycle': 5, 'keep': False, 'default_config': True})
     if ctx.quick:
